@@ -1,5 +1,5 @@
 #![allow(unused)]
-use vstd::prelude::*;
+use ::vstd::prelude::*;
 //@quote-macros
 //@include prelude/tokens.rs
 //@include prelude/deps.rs
@@ -19,7 +19,7 @@ verus! {
 // =====================================================================================================
 
 // `==` on counterpart types: Verus checks the real `eq` body against eq_spec (vstd's contract for PartialEq::eq)
-impl vstd::std_specs::cmp::PartialEqSpecImpl for TypePath {
+impl ::vstd::std_specs::cmp::PartialEqSpecImpl for TypePath {
     open spec fn obeys_eq_spec() -> bool { true }
     open spec fn eq_spec(&self, other: &Self) -> bool { ty_eq(*self, *other) }
 }
